@@ -43,6 +43,7 @@ type behaviour struct {
 	S     uint64 `json:"s"`
 	P     uint   `json:"p"`
 	Real  bool   `json:"real"`
+	Slow  bool   `json:"slowsub"` // the epoch events go through the repository's fan-out to a subscriber that takes them at "consume" steps
 	Steps []step `json:"steps"`
 }
 
@@ -149,6 +150,24 @@ func (r *recSub) take() []uint64 {
 	return g
 }
 
+// teeSub records epoch publications synchronously (like recSub) and passes them on to the repository's fan-out.
+type teeSub struct {
+	recSub
+	real *aggsender.GenericSubscriberImpl[types.EpochEvent]
+	w    *tr.W
+	n    int
+}
+
+func (t *teeSub) Subscribe(name string) <-chan types.EpochEvent { return t.real.Subscribe(name) }
+func (t *teeSub) Publish(e types.EpochEvent) {
+	t.w.Emit(tr.M{"ev": "epochpub", "e": e.Epoch}) // before any send of it can complete
+	t.recSub.Publish(e)
+	t.mu.Lock()
+	t.n++
+	t.mu.Unlock()
+	t.real.Publish(e)
+}
+
 func Run(args []string) error {
 	fs := flag.NewFlagSet("pollepoch", flag.ContinueOnError)
 	in := fs.String("in", "", "behaviours json")
@@ -181,7 +200,29 @@ func one(w *tr.W, logger *log.Logger, b behaviour) error {
 	defer cancel()
 	client := &rpc{arrived: make(chan struct{}), answer: make(chan int64)}
 	fo := &fanout{toEpoch: make(chan types.EventNewBlock), subbed: make(chan struct{}), w: w}
-	sub := &recSub{}
+	var sub interface {
+		types.GenericSubscriber[types.EpochEvent]
+		take() []uint64
+	} = &recSub{}
+	var tee *teeSub
+	var consumer <-chan types.EpochEvent
+	consumed := 0
+	if b.Slow {
+		tee = &teeSub{real: aggsender.NewGenericSubscriberImpl[types.EpochEvent](), w: w}
+		sub = tee
+		consumer = tee.Subscribe("verif-consumer")
+	}
+	// consume takes one epoch event from the subscriber's channel (-1: none came)
+	consume := func(wait time.Duration) bool {
+		select {
+		case e := <-consumer:
+			consumed++
+			w.Emit(tr.M{"ev": "consume", "e": e.Epoch})
+			return true
+		case <-time.After(wait):
+			return false
+		}
+	}
 	// deliver hands one block event to the epoch notifier and waits until it has been handled (barrier: the loop is
 	// sequential and the channel unbuffered, so the second send completes after step + Publish of the first returned;
 	// the notifier ignores the repetition as "no new block").
@@ -248,6 +289,10 @@ func one(w *tr.W, logger *log.Logger, b behaviour) error {
 			fo.parked = append(fo.parked[:s.I-1:s.I-1], fo.parked[s.I:]...)
 			fo.mu.Unlock()
 			deliver(ev)
+		case "consume":
+			if b.Slow && !consume(2*time.Second) {
+				w.Emit(tr.M{"ev": "consume", "e": -1}) // the model parked an event here; the subscriber got none
+			}
 		}
 	}
 	if b.Real { // wait until every pending send of the real fan-out has completed
@@ -264,6 +309,18 @@ func one(w *tr.W, logger *log.Logger, b behaviour) error {
 			}
 			time.Sleep(200 * time.Microsecond)
 		}
+	}
+	if b.Slow { // the subscriber finally takes everything that was published to it
+		for {
+			tee.mu.Lock()
+			n := tee.n
+			tee.mu.Unlock()
+			if consumed >= n || !consume(2*time.Second) {
+				break
+			}
+		}
+		consume(5 * time.Millisecond) // anything beyond what was published?
+		w.Emit(tr.M{"ev": "subend", "consumed": consumed})
 	}
 	cancel()
 	<-bnDone
